@@ -17,30 +17,30 @@ import sys
 VERIF = os.path.dirname(os.path.dirname(os.path.abspath(__file__)))
 
 FILES = {
-    "funsor/tensor.py": ["C01", "C02", "C06", "C19", "C14", "C20"],
-    "funsor/terms.py": ["C01", "C04", "C05", "C07", "C02"],
-    "funsor/cnf.py": ["C02", "C08", "C03", "C01"],
+    "funsor/tensor.py": ["C01", "C19", "C14"],
+    "funsor/terms.py": ["C01", "C04", "C05"],
+    "funsor/cnf.py": ["C08", "C02", "C01"],
     "funsor/sum_product.py": ["C09", "C10"],
     "funsor/gaussian.py": ["C12", "C13", "C14"],
     "funsor/adjoint.py": ["C11"],
     "funsor/domains.py": ["C06", "C07", "C01"],
-    "funsor/interpreter.py": ["C17", "C03", "C01"],
-    "funsor/interpretations.py": ["C17", "C03", "C02"],
+    "funsor/interpreter.py": ["C17", "C03"],
+    "funsor/interpretations.py": ["C17", "C03"],
     "funsor/optimizer.py": ["C08", "C05"],
     "funsor/delta.py": ["C14", "C02"],
-    "funsor/integrate.py": ["C13", "C14", "C02"],
+    "funsor/integrate.py": ["C13", "C14"],
     "funsor/typing.py": ["C16"],
     "funsor/registry.py": ["C16"],
-    "funsor/ops/op.py": ["C15", "C07", "C16"],
+    "funsor/ops/op.py": ["C07", "C15", "C16"],
     "funsor/ops/builtin.py": ["C15", "C06"],
     "funsor/ops/array.py": ["C15", "C06", "C01"],
     "funsor/compiler.py": ["C18"],
+    "funsor/ops/program.py": ["C18"],
+    "funsor/ops/tracer.py": ["C18"],
     "funsor/einsum/__init__.py": ["C09", "C08"],
     "funsor/einsum/numpy_log.py": ["C15", "C08"],
-    "funsor/einsum/util.py": ["C08", "C09"],
-    "funsor/joint.py": ["C14", "C13", "C02"],
+    "funsor/joint.py": ["C12", "C13", "C14"],
     "funsor/affine.py": ["C12", "C04"],
-    "funsor/constant.py": ["C02"],
 }
 
 CMP = {ast.Lt: ast.LtE, ast.LtE: ast.Lt, ast.Gt: ast.GtE, ast.GtE: ast.Gt, ast.Eq: ast.NotEq, ast.NotEq: ast.Eq,
@@ -196,7 +196,11 @@ def main():
                 else:
                     for cid in FILES[path]:
                         env = dict(os.environ, FV_REPO=wt, PYTHONPATH=wt)
-                        p = subprocess.run([os.path.join(VERIF, "check"), cid, "--tier", "quick", "--no-evidence"], env=env, capture_output=True, text=True, timeout=7200)
+                        try:
+                            p = subprocess.run([os.path.join(VERIF, "check"), cid, "--tier", "quick", "--no-evidence"], env=env, capture_output=True, text=True, timeout=1800)
+                        except subprocess.TimeoutExpired:
+                            rec["checks"][cid] = {"rc": 2, "keys": [], "inconclusive": ["campaign timeout"]}
+                            continue
                         keys = sorted(set(l.split("key=")[1].split(":")[0] + ":" + l.split("key=")[1].split(":")[1].split(" ")[0] if l.count(":") > 1 else l for l in p.stdout.splitlines() if l.startswith("  key=")))[:3]
                         rec["checks"][cid] = {"rc": p.returncode, "keys": keys, "inconclusive": [l[:160] for l in p.stdout.splitlines() if l.startswith("INCONCLUSIVE")][:2]}
                         if p.returncode == 1:
